@@ -79,6 +79,8 @@ def cases(tier, seed):
             flds, pay = ["volFrac_smooth", "vfrac", "temp", "volFrac", "density", "xvolFrac"], ["one", "pos", "pos", "frac", "signed", "coded"]
         elif mi % 3 == 1:
             flds, pay = ["temp", "volFrac", "density"], ["pos", "frac", "signed"]
+            if mi % 2:          # the volume fraction as component 0 (an index that is falsy)
+                flds, pay = ["volFrac", "temp", "density"], ["frac", "pos", "signed"]
         else:
             flds, pay = ["temp", "density"], ["pos", "signed"]
         d.update({"fields": flds, "payload": pay, "layout": lay, "seed": seed})
